@@ -442,7 +442,11 @@ func onlyStoreOps(ops []string) bool {
 }
 
 // at most this many child processes at a time (each start of this binary costs about one CPU-second)
-var workerSem = make(chan struct{}, 8)
+var workerSem = make(chan struct{}, 6)
+
+// hangBudget bounds the number of child processes lost to hangs in one run (set in main from the tier): about
+// ten times what the generator produces on the unchanged tree.
+var hangBudget = 250
 
 func impl(ops []string) []string {
 	outs := make([]string, len(ops))
@@ -482,6 +486,15 @@ func impl(ops []string) []string {
 				bs = newStoreCase(filepath.Join(dir, fmt.Sprintf("bs%d", i)))
 			}
 			outs[i] = bs.do(strings.Fields(op))
+			continue
+		}
+		poolMu.Lock()
+		exhausted := nHangs >= hangBudget
+		poolMu.Unlock()
+		if exhausted {
+			// far more hangs than the unchanged tree produces: the run has failed already (the earlier cases carry
+			// the violations and disagreements); do not spend a child process per further hang
+			outs[i] = "hang-budget-exhausted"
 			continue
 		}
 		a, hung := w.call(op)
@@ -578,9 +591,57 @@ func neighbour(r *rand.Rand, k []byte) []byte {
 	return c
 }
 
+// genExhaustive: a small database, then EVERY crash point: the data file cut at each length from full down to
+// 0 (index complete), then the index file cut at each length (data complete); after each cut Open and read all keys.
+func genExhaustive(r *rand.Rand) []string {
+	klen := 1 + r.Intn(3)
+	comp := r.Intn(4) == 0
+	ops := []string{fmt.Sprintf("new %d %d", klen, b2i(comp))}
+	n := 1 + r.Intn(3)
+	var keys [][]byte
+	datLen := 0
+	seen := map[string]bool{}
+	for j := 0; j < n; j++ {
+		k := randKey(r, klen)
+		if seen[string(k)] {
+			continue
+		}
+		seen[string(k)] = true
+		keys = append(keys, k)
+		c := make([]byte, r.Intn(5))
+		r.Read(c)
+		st := c
+		if comp {
+			st, _ = zstd.Compress(c)
+		}
+		datLen += 4 + len(st)
+		ops = append(ops, fmt.Sprintf("write %s %s %s", hx(k), hx(c), hx(st)))
+	}
+	ops = append(ops, "save", "idx", "dat")
+	idxLen := 4 + len(keys)*(klen+9)
+	ops = append(ops, "open", "close")
+	for cut := datLen; cut >= 0; cut-- {
+		ops = append(ops, fmt.Sprintf("trunc dat %d", cut), "open")
+		for _, k := range keys {
+			ops = append(ops, "read "+hx(k))
+		}
+		ops = append(ops, "close")
+	}
+	for cut := idxLen - 1; cut >= 0; cut-- {
+		ops = append(ops, fmt.Sprintf("trunc idx %d", cut), "open")
+		if r.Intn(3) == 0 {
+			ops = append(ops, "openmap")
+		}
+	}
+	return ops
+}
+
 func gen(r *rand.Rand, thorough bool, i int) []string {
 	if i%8 == 7 {
 		return genStore(r, thorough)
+	}
+	if i%25 == 3 {
+		return genExhaustive(r)
 	}
 	klen := 1 + r.Intn(8)
 	switch r.Intn(12) {
@@ -660,7 +721,7 @@ func gen(r *rand.Rand, thorough bool, i int) []string {
 		absentBudget := 0
 		if useMap {
 			absentBudget = 3
-		} else if r.Intn(10) == 0 {
+		} else if r.Intn(16) == 0 {
 			absentBudget = 1 + r.Intn(2)
 		}
 		for q := 0; q < reads; q++ {
@@ -888,11 +949,19 @@ func main() {
 			return
 		}
 	}
+	for i, a := range os.Args[1:] {
+		if (a == "-tier" || a == "--tier") && i+2 < len(os.Args) && os.Args[i+2] == "thorough" {
+			hangBudget = 6000
+		}
+		if a == "-tier=thorough" || a == "--tier=thorough" {
+			hangBudget = 6000
+		}
+	}
 	corr.Main(corr.Prop{
 		ID: "C26", Model: "C26", Gen: gen, Impl: impl, Oracle: oracle,
 		Cases: func(th bool) int {
 			if th {
-				return 20000
+				return 6000
 			}
 			return 400
 		},
